@@ -40,7 +40,8 @@ extern int mpt_parse_format_enc(const MPT_STRUCT(parser_format) *fmt, MPT_STRUCT
 	else if ((curr = mpt_parse_nextvis(&parse->src, fmt->com, sizeof(fmt->com))) < 0) {
 		parse->curr = MPT_PARSEFLAG(Name);
 		if (!path->len && curr == -2) {
-			return curr;
+			parse->curr = 0;
+			return 0;
 		}
 		return MPT_ERROR(MissingData);
 	}
